@@ -127,18 +127,18 @@ func matrixSpec(rng *lp.Rand) *bodySpec {
 	obj := func(props ...Prop) *Schema { return g.Component(&Schema{Type: "object", Props: props}) }
 	b := &bodySpec{g: g}
 	add := func(s *Schema) { b.ops = append(b.ops, bodyOp{fmt.Sprintf("m%d", len(b.ops)), s}) }
-	add(obj(Prop{"n", &Schema{Type: "integer"}, true}, Prop{"arr", &Schema{Type: "array", Items: &Schema{Type: "string"}, MinItems: ip(1)}, false}))                        // D11
-	add(obj(Prop{"i", &Schema{Type: "integer", MinI: i64p(0), MaxI: i64p(10), ExclMax: true}, true}, Prop{"m", &Schema{Type: "integer", MultI: i64p(3)}, false}))           // bounds
-	add(obj(Prop{"f", &Schema{Type: "number", MinF: f64p(-1.5), ExclMin: true, MaxF: f64p(2)}, true}, Prop{"g", &Schema{Type: "number", MultF: f64p(0.25)}, false}))          // floats
-	add(obj(Prop{"s", &Schema{Type: "string", MinLen: ip(1), MaxLen: ip(3)}, true}, Prop{"p", &Schema{Type: "string", Pattern: patterns[0]}, false}))                        // strings
-	add(obj(Prop{"e", &Schema{Type: "string", Enum: []any{"red", "green"}}, true}, Prop{"ne", &Schema{Type: "string", Enum: []any{"a", "b"}, Nullable: true}, false}))        // enums
-	add(g.Component(&Schema{Type: "object", Props: []Prop{{"a", &Schema{Type: "string"}, true}}, AddMode: "false"}))                                                         // closed object
-	add(g.Component(&Schema{Type: "object", Props: []Prop{{"a", &Schema{Type: "string"}, false}}, AddMode: "schema", AddProps: &Schema{Type: "integer", MinI: i64p(0)}}))    // typed additional
-	add(g.Component(&Schema{Type: "object", AddMode: "schema", AddProps: &Schema{Type: "integer"}, MinProps: ip(1), MaxProps: ip(2)}))                                       // map with counts
-	add(&Schema{Type: "array", Items: &Schema{Type: "integer"}, Unique: true, MinItems: ip(1), MaxItems: ip(3)})                                                             // unique ints
-	add(&Schema{Type: "array", Items: &Schema{Type: "string"}, Unique: true})                                                                                               // unique strings
+	add(obj(Prop{"n", &Schema{Type: "integer"}, true}, Prop{"arr", &Schema{Type: "array", Items: &Schema{Type: "string"}, MinItems: ip(1)}, false}))                             // D11
+	add(obj(Prop{"i", &Schema{Type: "integer", MinI: i64p(0), MaxI: i64p(10), ExclMax: true}, true}, Prop{"m", &Schema{Type: "integer", MultI: i64p(3)}, false}))                // bounds
+	add(obj(Prop{"f", &Schema{Type: "number", MinF: f64p(-1.5), ExclMin: true, MaxF: f64p(2)}, true}, Prop{"g", &Schema{Type: "number", MultF: f64p(0.25)}, false}))             // floats
+	add(obj(Prop{"s", &Schema{Type: "string", MinLen: ip(1), MaxLen: ip(3)}, true}, Prop{"p", &Schema{Type: "string", Pattern: patterns[0]}, false}))                            // strings
+	add(obj(Prop{"e", &Schema{Type: "string", Enum: []any{"red", "green"}}, true}, Prop{"ne", &Schema{Type: "string", Enum: []any{"a", "b"}, Nullable: true}, false}))           // enums
+	add(g.Component(&Schema{Type: "object", Props: []Prop{{"a", &Schema{Type: "string"}, true}}, AddMode: "false"}))                                                             // closed object
+	add(g.Component(&Schema{Type: "object", Props: []Prop{{"a", &Schema{Type: "string"}, false}}, AddMode: "schema", AddProps: &Schema{Type: "integer", MinI: i64p(0)}}))        // typed additional
+	add(g.Component(&Schema{Type: "object", AddMode: "schema", AddProps: &Schema{Type: "integer"}, MinProps: ip(1), MaxProps: ip(2)}))                                           // map with counts
+	add(&Schema{Type: "array", Items: &Schema{Type: "integer"}, Unique: true, MinItems: ip(1), MaxItems: ip(3)})                                                                 // unique ints
+	add(&Schema{Type: "array", Items: &Schema{Type: "string"}, Unique: true})                                                                                                    // unique strings
 	add(obj(Prop{"on", &Schema{Type: "string", Nullable: true}, false}, Prop{"rn", &Schema{Type: "integer", Nullable: true}, true}, Prop{"o", &Schema{Type: "boolean"}, false})) // three states
-	{ // recursion
+	{                                                                                                                                                                            // recursion
 		g.env["Tree"] = &Schema{Type: "object", Props: []Prop{{"v", &Schema{Type: "integer", MinI: i64p(0)}, true}, {"kids", &Schema{Type: "array", Items: &Schema{Ref: "Tree"}, MaxItems: ip(2)}, false}}}
 		add(&Schema{Ref: "Tree"})
 	}
@@ -167,6 +167,19 @@ func c03(r *lp.Run) {
 	}
 	defer os.RemoveAll(mod.Dir)
 	var specs []*bodySpec
+	{ // composition matrix: every shape of GenSum at least once
+		g := NewSchemaGen(rng.Fork(2))
+		sm := &bodySpec{g: g}
+		for k := 0; k < 28; k++ {
+			sm.ops = append(sm.ops, bodyOp{fmt.Sprintf("s%d", k), g.GenSum()})
+		}
+		if pkg, err := mod.Add("bsum", []byte(sm.doc()), gen.Options{}); err != nil {
+			r.Fail(lp.PropFail{Property: "C03", What: "the generator refuses the composition (allOf/oneOf/anyOf) matrix spec", Input: sm.doc(), Observed: err.Error(), Expected: "generated package"})
+		} else {
+			sm.pkg = pkg
+			specs = append(specs, sm)
+		}
+	}
 	m := matrixSpec(rng.Fork(1))
 	pkg, err := mod.Add("bm", []byte(m.doc()), gen.Options{})
 	if err != nil {
@@ -179,6 +192,7 @@ func c03(r *lp.Run) {
 	discarded := 0
 	for i := 0; i < nSpecs; i++ {
 		g := NewSchemaGen(rng.Fork(uint64(100 + i)))
+		g.Sums = i%2 == 1
 		b := &bodySpec{g: g}
 		for k := 0; k < 4; k++ {
 			b.ops = append(b.ops, bodyOp{fmt.Sprintf("op%d", k), g.Gen(3)})
